@@ -522,6 +522,58 @@ def check_vtable_calls(P, ctx):
     ctx.floor(rule, 20)
 
 
+class MemberMismatch(Exception):
+    pass
+
+
+def check_member_addressing(P, ctx):
+    """implements_method / type_implements_method answer for the member they name: the macro expansions (witness unit, compiled against
+    the current header) are evaluated down to the read of the instance table, for the first and the third member of a class and every
+    pattern of set / empty members — the answer is whether *that* member is set"""
+    from . import cint
+    import itertools
+    rule = 'C08.member-addressing'
+    TYPE, INST, OBJ = 8500, 700000, 5000
+    for wname, idx, through in (('w_implements_first', 0, 'object'), ('w_implements_third', 2, 'object'),
+                                ('w_type_implements_first', 0, 'type'), ('w_type_implements_third', 2, 'type')):
+        fn = P.fn(wname)
+        bad, unsup, ncase = None, None, 0
+        for pat in itertools.product((0, 1), repeat=4):
+            def call(nm, e, it):
+                if nm == 'Type_Of':
+                    return TYPE
+                if nm == 'Type_Scan':
+                    return INST
+                raise cint.NoEval('call %s' % nm)
+
+            def mem(a, it, pat=pat):
+                k, r = divmod(a - INST, 8)
+                if r or not 0 <= k < 4:
+                    raise MemberMismatch('reads the instance table at byte %d: not where a member of the class starts' % (a - INST))
+                return 4242 + k if pat[k] else 0
+            # (offsetof(struct Get, <member>) in the expansion: the byte offset of the member the witness names)
+            atoms = {('global', 'NULL'): 0, ('offsetof',): 8 * idx, ('global', 'Get'): 8600}
+            it = cint.CInt(P, fn, atoms=atoms, call=call, recurse=True, mem=mem, strict=True)
+            it.atoms = atoms
+            try:
+                r = it.run([OBJ if through == 'object' else TYPE])
+            except MemberMismatch as x:
+                bad = bad or 'the test of member %d %s' % (idx + 1, x)
+                continue
+            ncase += 1
+            if r[0] != 'ret' or not isinstance(r[1], int):
+                unsup = unsup or 'members %s: %s' % (pat, r[1])
+            elif bool(r[1]) != bool(pat[idx]):
+                bad = bad or 'members (get, set, mem, rem) set as %s: the test of member %d answers %s' % (pat, idx + 1, bool(r[1]))
+        ctx.stats['paths'] += ncase
+        what = '%s(%s, Get, %s)' % ('implements_method' if through == 'object' else 'type_implements_method', 'x' if through == 'object' else 'T', ('get', 'set', 'mem')[idx])
+        if unsup and not bad:
+            ctx.undecided(rule, wname, site(fn), 'leaves the evaluated fragment: ' + unsup)
+        else:
+            ctx.check(bad is None, rule, wname, site(fn), '%s is true exactly when that member is set in the type\'s Get instance (16 patterns evaluated)' % what, [bad] if bad else None)
+    ctx.floor(rule, 4)
+
+
 def run(ctx, load):
     P = load(None, 'default', [WITNESS])
     ctx.stats['units'] = set(k for k in P.units if k.startswith('src/')) | {'witness/macros.c', 'include/Cello.h'}
@@ -539,6 +591,7 @@ def run(ctx, load):
     ctx.floors.pop(('C12.dispatcher-checks', ctx.config), None)
     ctx.floor('C08.method-guard', 11)
     check_vtable_calls(P, ctx)
+    check_member_addressing(P, ctx)
     # the cache is consulted by the dispatcher alone: a reader elsewhere is not covered by the agreement of entry and scan decided above
     from .rules_c18 import check_cache_regions
     ctx.borrow('C08.cache-only-in-dispatcher', 2, lambda: check_cache_regions(P, ctx), only=lambda o: o['rule'] == 'C18.cache-transparent' and ('raw-cache-read' in o['key'] or o['key'].startswith('src/') or o['key'] == 'anchor'))
